@@ -182,6 +182,11 @@ func generate(prop string, seed uint64, run int, tier string) *Scenario {
 					op.BuildErrKind = pick(lr, "canceled", "deadline", "notfound", "expired")
 				}
 
+				// a builder whose legitimate result is a nil interface (untyped APIs)
+				if op.Kind == "get" && !op.BuildFail && !op.BuildEqual && sc.FO.API != "failoverOf" && prop != "C03" && chance(lr, 0.06) {
+					op.BuildNil = true
+				}
+
 				// builders that need another cached value: nesting only towards higher key indices, so that
 				// the workload itself cannot deadlock
 				if nk := len(sc.FO.Keys); op.Kind == "get" && op.Key < nk-1 && chance(lr, 0.08) {
